@@ -406,6 +406,17 @@ def reparse_checks(out_events, r, res=None):
                 e[2] = [a for a in e[2] if not (a[0][1] == 'xmlns' or a[0][1].startswith('xmlns:'))]
         for what, obs in check_events(j, r, 're-parse of %s output' % method, False):
             bad.append((what, [obs, text[:300]]))
+        if method == 'html':
+            # ... and by genshi's own HTML parser, which decodes attribute values once more
+            try:
+                from genshi.input import HTML, ParseError
+                g = [genshi_to_jev(e) for e in HTML(text)]
+            except Exception as ex:
+                if res is not None:
+                    res.count('reparse-genshi-raised:%s' % type(ex).__name__)
+                continue
+            for what, obs in check_events(g, r, 're-parse of html output by genshi.input.HTML', False):
+                bad.append((what, [obs, text[:300]]))
     return bad
 
 
